@@ -149,7 +149,13 @@ var sketchUnit = transUnit{Dir: "ddsketch", File: "CodeSketch", NS: "DDS.Gen.Ske
 		"DDSketchWithExactSummaryStatistics.Reweight",
 	}}
 
-func init() { transUnits = append(transUnits, sketchUnit) }
+var datasetUnit = transUnit{Dir: "dataset", File: "CodeDataset", NS: "DDS.Gen.Dataset", Mode: "f64",
+	Imports:     []string{"DDS.Generated.CodeStat"},
+	ExternTypes: sketchUnit.ExternTypes, ExternFuncs: sketchUnit.ExternFuncs,
+	Funcs: []string{"NewDataset", "Dataset.Add", "Dataset.sort", "Dataset.LowerQuantile", "Dataset.Quantile", "Dataset.UpperQuantile",
+		"Dataset.Min", "Dataset.Max", "Dataset.Sum", "Dataset.Merge"}}
+
+func init() { transUnits = append(transUnits, sketchUnit, datasetUnit) }
 
 type trErr struct{ msg string }
 
@@ -814,7 +820,13 @@ func (t *tr) conversion(x *ast.CallExpr, to types.Type, c *ectx) string {
 		if t.unit.Mode == "mops" {
 			return "(MOps.trunc " + a + ")"
 		}
-		t.fail(x, "float to int conversion in the exact float model")
+		// NaN / infinities: the conversion is implementation-defined in Go; treated as a panic (as the model does)
+		if c.hoists == nil || c.inSC {
+			t.fail(x, "float to int conversion needs a fallible context")
+		}
+		n := t.tmp()
+		*c.hoists = append(*c.hoists, hoist{name: n, kind: "opt", pat: n, expr: "F64.truncToInt " + a})
+		return n
 	}
 	t.fail(x, "unsupported conversion %s -> %s", from, to)
 	return ""
@@ -864,8 +876,15 @@ func (t *tr) stdCall(x *ast.CallExpr, path string, c *ectx) (string, bool) {
 		}
 		return "(GoSem.fmin " + arg(0) + " " + arg(1) + ")", true
 	case "math.Log", "math.Exp", "math.Log2", "math.Exp2", "math.Cbrt", "math.Sqrt", "math.Floor":
+		if !mops && path == "math.Floor" {
+			return "(F64.floor " + arg(0) + ")", true
+		}
 		if mops {
 			return "(MOps." + strings.ToLower(path[5:6]) + path[6:] + " " + arg(0) + ")", true
+		}
+	case "math.Ceil":
+		if !mops {
+			return "(GoSem.fceil " + arg(0) + ")", true
 		}
 	case "math.Pow":
 		if mops {
@@ -921,7 +940,7 @@ func (t *tr) call(x *ast.CallExpr, c *ectx) string {
 	// standard library
 	if sel, ok := x.Fun.(*ast.SelectorExpr); ok {
 		if id, ok := sel.X.(*ast.Ident); ok {
-			if pn, ok := t.info.Uses[id].(*types.PkgName); ok {
+			if pn, ok := t.info.Uses[id].(*types.PkgName); ok && t.byObj[t.info.Uses[sel.Sel]] == nil {
 				if s, ok := t.stdCall(x, pn.Imported().Path()+"."+sel.Sel.Name, c); ok {
 					return s
 				}
@@ -1313,6 +1332,14 @@ func (t *tr) callStmt(x *ast.CallExpr, lhs []ast.Expr, define bool, sc *sctx, k 
 			}
 		}
 	}
+	if sel, ok := x.Fun.(*ast.SelectorExpr); ok {
+		if id, ok := sel.X.(*ast.Ident); ok {
+			if pn, ok := t.info.Uses[id].(*types.PkgName); ok && pn.Imported().Path() == "sort" && sel.Sel.Name == "Float64s" && len(lhs) == 0 {
+				v := "(GoSem.sortFloat64s " + t.expr(x.Args[0], c) + ")"
+				return t.wrapHoists(*hs, t.assignTo(x.Args[0], v, c, sc, k), sc)
+			}
+		}
+	}
 	fi, args := t.callee(x, c)
 	if fi == nil || (fi.decl == nil && !fi.extern) {
 		// a pure expression call (library function, intrinsic) bound to lhs
@@ -1402,7 +1429,7 @@ func hasJump(n ast.Node) bool {
 	found := false
 	ast.Inspect(n, func(m ast.Node) bool {
 		switch m.(type) {
-		case *ast.ReturnStmt, *ast.BranchStmt, *ast.ForStmt:
+		case *ast.ReturnStmt, *ast.BranchStmt, *ast.ForStmt, *ast.RangeStmt:
 			found = true
 		}
 		return !found
@@ -1510,6 +1537,9 @@ func (t *tr) assignedOuter(nodes []ast.Node, declaredInside func(types.Object) b
 						add(x)
 					}
 				}
+				if obj != nil && obj.Name() == "Float64s" && obj.Pkg() != nil && obj.Pkg().Path() == "sort" && len(s.Args) > 0 {
+					add(s.Args[0])
+				}
 			}
 			return true
 		})
@@ -1578,6 +1608,13 @@ func (t *tr) stmt(s ast.Stmt, sc *sctx, kf func() string) string {
 			one = fmt.Sprintf("1#%d", bvWidth(ty))
 		}
 		v := "(" + t.expr(x.X, c) + op + one + ")"
+		if isFloat(ty) {
+			fn := "add"
+			if x.Tok == token.DEC {
+				fn = "sub"
+			}
+			v = "(" + t.fop(fn) + " " + t.expr(x.X, c) + " " + t.constOfType(x, constant.MakeInt64(1), ty) + ")"
+		}
 		return t.wrapHoists(*hs, t.assignTo(x.X, v, c, sc, kf()), sc)
 	case *ast.AssignStmt:
 		if len(x.Rhs) == 1 {
@@ -1724,6 +1761,8 @@ func (t *tr) stmt(s ast.Stmt, sc *sctx, kf func() string) string {
 		return t.wrapHoists(*hs, "if "+cond+" then\n"+th+"\nelse\n"+el, sc)
 	case *ast.ForStmt:
 		return t.forStmt(x, sc, kf())
+	case *ast.RangeStmt:
+		return t.rangeStmt(x, sc, kf())
 	}
 	t.fail(s, "unsupported statement %T", s)
 	return ""
@@ -1751,6 +1790,98 @@ func (t *tr) retType() string {
 		return "Unit"
 	}
 	return strings.Join(tys, " × ")
+}
+
+// `for _, v := range xs { body }` over a slice: structural recursion on the list (no fuel); the slice
+// expression is evaluated once, as in Go
+func (t *tr) rangeStmt(x *ast.RangeStmt, sc *sctx, k string) string {
+	if sc.monad == "pure" {
+		t.fail(x, "loop in a pure function")
+	}
+	if x.Key != nil {
+		if id, ok := x.Key.(*ast.Ident); !ok || id.Name != "_" {
+			t.fail(x, "range with an index variable")
+		}
+	}
+	sl, ok := t.typeOf(x.X).Underlying().(*types.Slice)
+	if !ok {
+		t.fail(x, "range over a non-slice")
+	}
+	val := "_"
+	if id, ok := x.Value.(*ast.Ident); ok {
+		val = lname(id.Name)
+	}
+	t.nLoop++
+	name := fmt.Sprintf("%s.loop%d", t.cur.lean, t.nLoop)
+	inside := func(o types.Object) bool { return o.Pos() >= x.Pos() && o.Pos() < x.End() }
+	var free []*types.Var
+	seen := map[*types.Var]bool{}
+	ast.Inspect(x.Body, func(m ast.Node) bool {
+		if id, ok := m.(*ast.Ident); ok {
+			if v, ok := t.info.Uses[id].(*types.Var); ok && !v.IsField() && !inside(v) && !seen[v] && v.Pkg() == t.pkg {
+				if _, isPkgVar := t.vars[v]; isPkgVar || v.Parent() == t.pkg.Scope() {
+					return true
+				}
+				seen[v] = true
+				free = append(free, v)
+			}
+		}
+		return true
+	})
+	state := t.assignedOuter([]ast.Node{x.Body}, inside)
+	if len(state) == 0 {
+		t.fail(x, "loop without state")
+	}
+	isState := map[*types.Var]bool{}
+	var stNames, stTypes []string
+	for _, v := range state {
+		isState[v] = true
+		stNames = append(stNames, lname(v.Name()))
+		stTypes = append(stTypes, t.leanType(v.Type()))
+	}
+	rec := name
+	var sig strings.Builder
+	sig.WriteString("def " + name)
+	if t.unit.Mode == "mops" {
+		sig.WriteString(" {F : Type} [MOps F]")
+	}
+	if t.unit.TypeParams != "" {
+		sig.WriteString(" " + t.unit.TypeParams)
+	}
+	needFuel := false
+	for _, v := range free {
+		if !isState[v] {
+			rec += " " + lname(v.Name())
+			sig.WriteString(" (" + lname(v.Name()) + " : " + t.leanType(v.Type()) + ")")
+		}
+	}
+	stTuple := tuple(stNames)
+	recCall := rec + " «rest» " + strings.Join(stNames, " ")
+	inner := &sctx{monad: "loop", brk: ".done " + stTuple, cont: recCall}
+	body := t.stmts(x.Body.List, inner, recCall)
+	if strings.Contains(body, " fuel") {
+		needFuel = true
+	}
+	if needFuel {
+		t.fail(x, "fallible call with fuel inside a range loop")
+	}
+	sig.WriteString(" : List (" + t.leanType(sl.Elem()) + ")")
+	for _, ty := range stTypes {
+		sig.WriteString(" → " + ty)
+	}
+	sig.WriteString(" → Loop (" + strings.Join(stTypes, " × ") + ") (" + t.retType() + ")\n")
+	sig.WriteString("  | [], " + strings.Join(stNames, ", ") + " => .done " + stTuple + "\n")
+	sig.WriteString("  | " + val + " :: «rest», " + strings.Join(stNames, ", ") + " =>\n")
+	sig.WriteString(indent(body, "    ") + "\n\n")
+	t.aux.WriteString(sig.String())
+	c, hs := t.newE(sc)
+	xs := t.expr(x.X, c)
+	comb := "Loop.elim"
+	if sc.monad == "loop" {
+		comb = "Loop.elimL"
+	}
+	call := rec + " " + xs + " " + strings.Join(stNames, " ")
+	return t.wrapHoists(*hs, comb+" ("+call+") (fun "+stTuple+" =>\n"+k+")", sc)
 }
 
 // does the loop body contain a `break` that leaves this loop?
@@ -1990,6 +2121,9 @@ func (t *tr) analyseMutation() {
 							mark(se.X)
 						}
 					}
+					if obj != nil && obj.Name() == "Float64s" && obj.Pkg() != nil && obj.Pkg().Path() == "sort" && len(s.Args) > 0 {
+						mark(s.Args[0])
+					}
 				}
 				return true
 			})
@@ -2016,9 +2150,13 @@ func (t *tr) analyseRes() {
 			r := false
 			ast.Inspect(fi.decl.Body, func(m ast.Node) bool {
 				switch e := m.(type) {
-				case *ast.ForStmt, *ast.IndexExpr, *ast.SliceExpr:
+				case *ast.ForStmt, *ast.RangeStmt, *ast.IndexExpr, *ast.SliceExpr:
 					r = true
 				case *ast.CallExpr:
+					if tv, ok := t.info.Types[e.Fun]; ok && tv.IsType() && len(e.Args) == 1 && t.unit.Mode != "mops" &&
+						isInt(tv.Type) && isFloat(t.typeOf(e.Args[0])) {
+						r = true // int(float): checked
+					}
 					var obj types.Object
 					switch f := e.Fun.(type) {
 					case *ast.Ident:
